@@ -611,6 +611,20 @@ func runForeign(ctx *runner.Ctx, k cs, h *honest) {
 				return
 			}
 		}
+		// the encoders given an object of another curve: an error or bytes, never a crash
+		for name, obj := range map[string]interface{}{"R1": h.m1, "R2": h.m2, "GS": h.gs, "ES": h.es} {
+			err, panicked := safely(func() error {
+				_, e := encode(oc, name, obj)
+				return e
+			})
+			if panicked {
+				ctx.Violate("encoder-panic."+name+".foreign-curve", fmt.Sprintf("Encode%s for %s panicked on a %s object: %v", name, k.Mut[6:], k.Curve, err), k)
+				return
+			}
+			if err == nil {
+				ctx.Outcome("encoder-accepted-foreign-curve-object/" + name)
+			}
+		}
 		// the round functions with a mismatching curve object
 		if _, _, err := sha2pc.EvaluatorRound2(drbg.New(2), oc, h.m1, h.b); err == nil {
 			ctx.Violate("foreign-curve-accepted.round2", "EvaluatorRound2 accepted a Round1 message of another curve", k)
